@@ -176,7 +176,7 @@ def cas_params(topo, symtype, numeric=None):
 
 
 def cas_function(topo, symtype="SX", numeric=None, compact=0, more_out=False, flags=None, order=None,
-                 declare=None):
+                 declare=None, dual_route=False):
     """real step with the CasADi engine + to_function.  Returns (F, built, P, symbolic-params).
     `declare`: optional ordered list of parameter names to declare (default: all symbolic ones)."""
     P, symbolic = cas_params(topo, symtype, numeric)
@@ -187,6 +187,10 @@ def cas_function(topo, symtype="SX", numeric=None, compact=0, more_out=False, fl
     if declare is not None:
         symbolic = {k: symbolic[k] for k in declare}
     others = {k: v for k, v in kw.items() if k not in symbolic}
+    if dual_route and not more_out:
+        # documented use: model parameters forwarded as **other_parameters exactly as they were given to net.step,
+        # the symbolic ones additionally declared through `parameters`
+        others = dict(kw)
     F = eng.to_function(built.net, compact=compact, more_out=more_out, parameters=symbolic, **others)
     return F, built, P, symbolic
 
